@@ -65,3 +65,52 @@ Definition optima_func_all (d k k_loc : nat) : list (list T) :=
   match func_loop d O None k k_loc with None => [] | Some X => X end.
 Definition optima_func_tt_beam (d k k_loc : nat) : list T := hd [] (optima_func_all d k k_loc).
 End OptimaFunc.
+
+(* ---------- the rank-1 path of optima_func_tt_beam, modelled in full ----------
+   For TT-rank 1 the orthogonalised coefficient cores are vectors; mode s contributes the univariate factor f_s (its power-basis
+   coefficients, low power first: cheb2poly of the Chebyshev coefficients of the core with the sqrt(2) scaling undone), G_prev
+   holds one scalar g per kept point (the product of the factors at its coordinates), and the polynomial handed to
+   _find_poly_max for that point is (g * f_s)^2.  G_new = G_prev[idx_prev] * f_s(x_new). *)
+Section OptimaFuncR1.
+Context {T : Type} (K : ops T).
+Notation "0" := (o0 K). Notation "1" := (o1 K).
+Infix "+" := (oadd K). Infix "*" := (omul K).
+Variable roots : nat -> nat -> list T -> list T.
+Variable argsort1 : nat -> nat -> list T -> list nat.
+Variable argsort2 : nat -> list T -> list nat.
+
+Fixpoint padd (p q : list T) : list T :=
+  match p, q with
+  | [], _ => q
+  | _, [] => p
+  | a :: p', b :: q' => (a + b) :: padd p' q'
+  end.
+(* polynomial product (coefficients low power first): length p + length q - 1 coefficients *)
+Fixpoint pmul (p q : list T) : list T :=
+  match p with
+  | [] => []
+  | [a] => map (fun c => a * c) q
+  | a :: p' => padd (map (fun c => a * c) q) (0 :: pmul p' q)
+  end.
+(* sum([Chebyshev(cf)**2 for cf in G0.T]).convert(Polynomial) with the single column cf = g * (coefficients of f) *)
+Definition sq_poly_r1 (g : T) (f : list T) : list T := map (fun c => g * g * c) (pmul f f).
+
+Definition func_step_r1 (s : nat) (f : list T) (kept : list (list T * T)) (k k_loc : nat) : list (list T * T) :=
+  let per := tab (length kept) (fun i => find_poly_max K roots argsort1 s i (sq_poly_r1 (snd (nth i kept ([], 0))) f) k_loc) in
+  let all_x := concat (map fst per) in
+  let all_y := concat (map snd per) in
+  let cs := cumsum_from O (map (fun r => length (fst r)) per) in
+  let idx_maxx := firstn k (rev (argsort2 s all_y)) in
+  map (fun idx => let prev := nth (searchsorted_r cs idx) kept ([], 0) in
+                  let x := nth idx all_x 0 in
+                  (fst prev ++ [x], snd prev * polyval K f x)) idx_maxx.
+Fixpoint func_loop_r1 (s : nat) (fs : list (list T)) (kept : list (list T * T)) (k k_loc : nat) : list (list T * T) :=
+  match fs with [] => kept | f :: fs' => func_loop_r1 (S s) fs' (func_step_r1 s f kept k k_loc) k k_loc end.
+(* X_prev = None, G_prev = [[1.]];  ret_all=True: all points;  ret_all=False: the first *)
+Definition optima_func_r1_all (fs : list (list T)) (k k_loc : nat) : list (list T) :=
+  map fst (func_loop_r1 O fs [([], 1)] k k_loc).
+Definition optima_func_r1 (fs : list (list T)) (k k_loc : nat) : list T := hd [] (optima_func_r1_all fs k k_loc).
+(* the interpolant of the rank-1 coefficient tensor at the point z *)
+Fixpoint prodf (fs : list (list T)) (z : list T) : T :=
+  match fs, z with f :: fs', x :: z' => polyval K f x * prodf fs' z' | _, _ => 1 end.
+End OptimaFuncR1.
